@@ -65,7 +65,7 @@ class Sentinel:
         return f"<{self.name}>"
 
 
-def make_iso(eng, labels, n=2, ads_fail=(), extra_fields=None, cls=None):
+def make_iso(eng, labels, n=2, ads_fail=(), extra_fields=None, cls=None, frame=False, branch=None, index=None):
     """A PointIsotherm with symbolic data.  labels: dict over LABELS."""
     st = prepare()
     cls = cls or st['PI'].PointIsotherm
@@ -91,7 +91,12 @@ def make_iso(eng, labels, n=2, ads_fail=(), extra_fields=None, cls=None):
     ex = numpy.array([stubs.Token(f'extra{i}') for i in range(n)], dtype=object)
     iso.pressure_key = 'pressure'
     iso.loading_key = 'loading'
-    iso.data_raw = stubs.ColumnStore({'pressure': p, 'loading': l, 'branch': br, 'extra': ex})
+    if frame:
+        from pgv import pdstub
+        brc = list(branch) if branch is not None else [0] * n
+        iso.data_raw = pdstub.FrameStub({'pressure': list(p), 'loading': list(l), 'branch': brc, 'extra': list(ex)}, index)
+    else:
+        iso.data_raw = stubs.ColumnStore({'pressure': p, 'loading': l, 'branch': br, 'extra': ex})
     iso.properties = {'meta1': stubs.Token('meta1'), 'meta2': 5}
     iso.l_interpolator = Sentinel('cached_l_interpolator')
     iso.p_interpolator = Sentinel('cached_p_interpolator')
